@@ -148,6 +148,8 @@ func parenC03(c *Ctx, tt *tokenTable) {
 	}
 	parenPrintC03(c)
 	binPrintC03(c, "C03.binprint")
+	c.Rule("C03.pure", "the package-level parse functions (ParseExpr, ParseStatement, ParseQuery and their Must forms) read no mutable package-level state: the tree a text denotes does not depend on texts parsed before, and two calls never hand out the same tree (a memo of parsed expressions returns a tree that an earlier caller may have rewritten, e.g. stripped of its parentheses)")
+	pureRule(c, "C03.pure", "ParseExpr", "ParseStatement", "ParseQuery", "MustParseExpr", "MustParseStatement")
 	// --- regex rhs ---
 	var insertBlk *ssa.BasicBlock
 	binT := p.Named("BinaryExpr")
@@ -303,6 +305,45 @@ func assocC03(c *Ctx) {
 					}
 					if _, plain := other.(*ssa.Call); !plain && derived(other, 0) {
 						c.Bad("C03.assoc", "(*Parser).ParseExpr: precedence comparison", bo.Pos(), "the right child's precedence is compared with a value computed from the new operator's precedence (adjusted or selected per operator), not with that precedence itself: some operator does not group at its own level / to the left")
+						return
+					}
+				}
+			}
+		}
+		// the right child's precedence compared with a value kept in a field of
+		// the parser that ParseExpr itself assigns: nested expressions (call
+		// arguments, parenthesised groups) run ParseExpr again and overwrite it
+		for _, b := range sf.Blocks {
+			for _, in := range b.Instrs {
+				bo, ok := in.(*ssa.BinOp)
+				if !ok || !(bo.Op == token.LSS || bo.Op == token.LEQ || bo.Op == token.GTR || bo.Op == token.GEQ) {
+					continue
+				}
+				for _, pair := range [][2]ssa.Value{{bo.X, bo.Y}, {bo.Y, bo.X}} {
+					pc, isCall := pair[0].(*ssa.Call)
+					if !isCall || pc.Call.StaticCallee() != precF {
+						continue
+					}
+					ld, isLoad := pair[1].(*ssa.UnOp)
+					if !isLoad || ld.Op != token.MUL {
+						continue
+					}
+					fa, isFA := ld.X.(*ssa.FieldAddr)
+					if !isFA || len(sf.Params) == 0 || fa.X != ssa.Value(sf.Params[0]) {
+						continue
+					}
+					stored := false
+					for _, b2 := range sf.Blocks {
+						for _, in2 := range b2.Instrs {
+							if st, ok := in2.(*ssa.Store); ok {
+								if fa2, ok := st.Addr.(*ssa.FieldAddr); ok && fa2.X == fa.X && fa2.Field == fa.Field {
+									stored = true
+								}
+							}
+						}
+					}
+					if stored {
+						c.Bad("C03.assoc", "(*Parser).ParseExpr: precedence comparison", bo.Pos(), "the level the new operator is compared at is read from a field of the parser that ParseExpr assigns: an operand that itself contains an expression (a call argument) runs ParseExpr again and leaves its own operator's level there, so the enclosing operator is placed at the wrong level")
 						return
 					}
 				}
